@@ -114,6 +114,8 @@ type xbuilder struct {
 	c       *Ctx
 	closure map[*ssa.Function]*ssa.MakeClosure
 	memo    map[ssa.Value]*X
+	env     map[ssa.Value]*X // parameter bindings while expanding a trivial function in place
+	inlDepth int
 }
 
 func newXBuilder(c *Ctx) *xbuilder {
@@ -243,6 +245,11 @@ func (b *xbuilder) expr(v ssa.Value, d int, onpath map[ssa.Value]bool) *X {
 	onpath[v] = true
 	defer delete(onpath, v)
 	sub := func(w ssa.Value) *X { return b.expr(w, d+1, onpath) }
+	if b.env != nil {
+		if r, ok := b.env[v]; ok {
+			return r
+		}
+	}
 
 	switch v := v.(type) {
 	case *ssa.Parameter:
@@ -287,7 +294,11 @@ func (b *xbuilder) expr(v ssa.Value, d int, onpath map[ssa.Value]bool) *X {
 	case *ssa.Call:
 		return b.callExpr(v, &v.Call, sub)
 	case *ssa.Extract:
-		return &X{Op: "extract", Name: fmt.Sprint(v.Index), Args: []*X{sub(v.Tuple)}, V: v}
+		t := sub(v.Tuple)
+		if t.Op == "tuple" && v.Index < len(t.Args) {
+			return t.Args[v.Index]
+		}
+		return &X{Op: "extract", Name: fmt.Sprint(v.Index), Args: []*X{t}, V: v}
 	case *ssa.FieldAddr:
 		st := deref(v.X.Type()).Underlying().(*types.Struct)
 		return &X{Op: "field", Name: st.Field(v.Field).Name(), Args: []*X{sub(v.X)}, V: v, Addr: true}
@@ -466,6 +477,70 @@ func (b *xbuilder) calleeName(cc *ssa.CallCommon) (kind, name string) {
 }
 
 func (b *xbuilder) callExpr(v ssa.Value, cc *ssa.CallCommon, sub func(ssa.Value) *X) *X {
+	// trivial pure functions and closures of the repository are expanded in place
+	if v != nil && b.inlDepth < 3 {
+		var callee *ssa.Function
+		var binds []ssa.Value
+		switch f := cc.Value.(type) {
+		case *ssa.Function:
+			callee = f
+		case *ssa.MakeClosure:
+			callee, _ = f.Fn.(*ssa.Function)
+			binds = f.Bindings
+		default:
+			// a local func variable assigned exactly one closure
+			if u, ok := cc.Value.(*ssa.UnOp); ok {
+				if al, ok := u.X.(*ssa.Alloc); ok {
+					if stores, esc := b.storesTo(al, map[ssa.Value]bool{}); !esc && len(stores) == 1 {
+						if mc, ok := stores[0].Val.(*ssa.MakeClosure); ok {
+							callee, _ = mc.Fn.(*ssa.Function)
+							binds = mc.Bindings
+						}
+					}
+				}
+			}
+		}
+		// only literals and unexported helpers: exported accessors are API and rules may name them
+		isLocal := callee != nil && (callee.Parent() != nil || (callee.Object() != nil && !callee.Object().Exported()))
+		if isLocal && !cc.IsInvoke() && callee.Pkg != nil && strings.HasPrefix(callee.Pkg.Pkg.Path(), modPath) && inlinable(callee) {
+			env := map[ssa.Value]*X{}
+			for i, p := range callee.Params {
+				if i < len(cc.Args) {
+					env[p] = sub(cc.Args[i])
+				}
+			}
+			for i, fv := range callee.FreeVars {
+				if i < len(binds) {
+					env[fv] = sub(binds[i])
+				}
+			}
+			ret := callee.Blocks[0].Instrs[len(callee.Blocks[0].Instrs)-1].(*ssa.Return)
+			saved := b.env
+			merged := map[ssa.Value]*X{}
+			for k, val := range saved {
+				merged[k] = val
+			}
+			for k, val := range env {
+				merged[k] = val
+			}
+			b.env = merged
+			b.inlDepth++
+			var out *X
+			if len(ret.Results) == 1 {
+				out = b.expr(ret.Results[0], 1, map[ssa.Value]bool{})
+			} else if len(ret.Results) > 1 {
+				out = &X{Op: "tuple", V: v}
+				for _, r := range ret.Results {
+					out.Args = append(out.Args, b.expr(r, 1, map[ssa.Value]bool{}))
+				}
+			}
+			b.inlDepth--
+			b.env = saved
+			if out != nil {
+				return out
+			}
+		}
+	}
 	kind, name := b.calleeName(cc)
 	x := &X{Op: kind, Name: name, V: v}
 	if kind == "invoke" || kind == "dyncall" {
